@@ -122,6 +122,8 @@ class FailOn(PerRule):
         self.rule, self.value = rule, value
 
     def handle(self, rule, ast, args, kwargs):
+        self.calls = getattr(self, 'calls', Counter())
+        self.calls[rule] += 1
         if rule == self.rule and impl.norm(ast) == self.value:
             from tatsu.exceptions import FailedSemantics
             raise FailedSemantics(f'{self.rule} rejects {ast!r}')
@@ -266,8 +268,15 @@ def check_grammar(m, name, g, inputs, nomemo=frozenset(), is_lr=False, menu=('no
             if 'failon' in menu:
                 for rule in rules:
                     for value in ('a', 'b', ['a', 'b'], None, {'v': 'a'}):
-                        want, _ = ref_run(g, text, 'failon', (rule, value))
-                        got = run_impl(which, model, pcls, text, semantics=FailOn(rules, rule, value), parseinfo=True, **({'_keep_parseinfo': False} if which == 'model' else {}))
+                        want, flog = ref_run(g, text, 'failon', (rule, value))
+                        fsem = FailOn(rules, rule, value)
+                        got = run_impl(which, model, pcls, text, semantics=fsem, parseinfo=True, **({'_keep_parseinfo': False} if which == 'model' else {}))
+                        if nomemo and not is_lr:
+                            refcalls = Counter(k[0][0] for k in flog)
+                            for nr in nomemo:
+                                if getattr(fsem, 'calls', Counter())[nr] != refcalls[nr]:
+                                    m.violation(f'nomemo-rule-action-count-differs/{which}', grammar=label, input=text, failing=[rule, value],
+                                                rule=nr, times=getattr(fsem, 'calls', Counter())[nr], reference=refcalls[nr])
                         if which == 'generated' and got[0] == 'ok':
                             got = ('ok', strip_pi(got[1]))
                         m.add('evaluations')
